@@ -771,7 +771,8 @@ fn exec(def: &DefInfo, rf: &Ref, sc: &Scenario) -> Outcome_ {
 // Workload generation
 // ---------------------------------------------------------------------------------------------
 
-const MULTI: &[&str] = &["é", "€", "𝔸", "ж", "ß", "🦀", "\u{2003}", "α"];
+// besides a few ordinary ones: the byte order mark, and characters at the extremes of the UTF-8 byte classes
+const MULTI: &[&str] = &["é", "€", "𝔸", "ж", "ß", "🦀", "\u{2003}", "α", "\u{FEFF}", "\u{FEFF}", "\u{80}", "\u{BF}", "\u{7FF}", "\u{800}", "\u{FFFF}", "\u{10000}", "\u{10FFFF}"];
 
 fn gen_input(rng: &mut Rng, def: &DefInfo, rf: &Ref, max_len: usize) -> Vec<u8> {
     let mut out: Vec<u8> = Vec::new();
